@@ -35,6 +35,12 @@ def bases(ctx, tier):
     t8 = {"100%_final.mov": b"percent sign", "br{ace}s {0}.txt": b"braces", "e\u0301.txt": b"decomposed e-acute", "\u00e9.txt": b"composed e-acute",
           "d %s": DIR, "d %s/in%d.txt": b"inside", "back\\slash.txt": b"backslash", " lead.txt": b"leading blank", "emp %": DIR}
     B["odd-names"] = (ops.build(ctx, t8, [c("", ["md5"]), c("", ["md5", "xxh64"])], expect=[0, 0]), [])
+    # a nested history below a hidden folder (sealed on its own first)
+    t9 = dict(T); t9[".staging"] = DIR; t9[".staging/card"] = DIR; t9[".staging/card/clip.mov"] = b"clip in a hidden folder"
+    B["nested-hidden"] = (ops.build(ctx, t9, [c(".staging/card", ["md5"]), c("", ["xxh64"])], expect=[0, 0]), [])
+    # ... and the same before the enclosing folder has a history of its own (only create can be asked there)
+    B["only-nested-hidden"] = (ops.build(ctx, t9, [c(".staging/card", ["md5"])], expect=[0]), [])
+    B["only-nested-plain"] = (ops.build(ctx, T, [c("d", ["md5"])], expect=[0]), [])
     B["failed-generation"] = (ops.build(ctx, T, [c("", ["md5"]), ["write", "a.txt", FAILED_CONTENT], c("", ["md5"]),
                                                  ["write", "a.txt", T["a.txt"]]], expect=[0, 11]), [])
     B["empty-folder"] = (ops.build(ctx, {}, [c("", ["xxh64"])], expect=[0]), [])
@@ -108,9 +114,12 @@ def classify(base_tree, mut_tree, pats):
     allp = ref.DEFAULT_PATTERNS + pats
     b, m = ref.media(base_tree), ref.media(mut_tree)
     altered, removed, new = [], [], []
+    roots = ref.history_roots(base_tree)
     for p, c in b.items():
         if ref.ignored(allp, p, c is DIR):
             continue
+        if "" not in roots and not any(p.startswith(hr + "/") for hr in roots):
+            continue   # no history covers this entry (bases in which only a sub-folder was sealed)
         if p not in m or (c is DIR) != (m[p] is DIR):
             removed.append(p)   # gone, or no longer an entry of the recorded type
             if p in m and m[p] is not DIR:
@@ -216,6 +225,8 @@ def main(tier, seed):
                 continue
             states.add((engine.canon(t), tuple(sorted(mt))))
             for cmd in ("verify", "diff", "create"):
+                if name.startswith("only-nested") and cmd != "create":
+                    continue
                 cases.append({"name": name, "base": tree, "pats": pats, "muts": ms, "cmd": cmd})
                 if len(ms) <= 1 and name in ("flat1", "nested1", "ignore-negated-anchored"):
                     for sp in ("slash", "slashdot", "dot", "rel"):
